@@ -190,7 +190,8 @@ def _map(container: Any, f: Callable) -> Any:
 
 def _filter(container: Any, f: Callable) -> Any:
     if isinstance(container, list):
-        return list(filter(f, container))
+        # not list(filter(...)): a StopIteration raised by f would silently end the iteration there
+        return [v for v in container if f(v)]
 
     raise ParserError(f'{container} is not a list')
 
